@@ -58,7 +58,13 @@ impl TryFrom<Bytes> for ZmqCommand {
     type Error = CodecError;
 
     fn try_from(mut buf: Bytes) -> Result<Self, Self::Error> {
+        if buf.is_empty() {
+            return Err(CodecError::Command("Empty command received"));
+        }
         let command_len = buf.get_u8() as usize;
+        if buf.len() < command_len {
+            return Err(CodecError::Command("Malformed command name"));
+        }
         // command-name-char = ALPHA according to https://rfc.zeromq.org/spec:23/ZMTP/
         let command = match &buf[..command_len] {
             b"READY" => ZmqCommandName::READY,
@@ -70,12 +76,21 @@ impl TryFrom<Bytes> for ZmqCommand {
         while !buf.is_empty() {
             // Collect command properties
             let prop_len = buf.get_u8() as usize;
+            if buf.len() < prop_len {
+                return Err(CodecError::Decode("Malformed property name"));
+            }
             let property = match String::from_utf8(buf.split_to(prop_len).to_vec()) {
                 Ok(p) => p,
                 Err(_) => return Err(CodecError::Decode("Invalid property identifier")),
             };
 
+            if buf.len() < 4 {
+                return Err(CodecError::Decode("Malformed property value"));
+            }
             let prop_val_len = buf.get_u32() as usize;
+            if buf.len() < prop_val_len {
+                return Err(CodecError::Decode("Malformed property value"));
+            }
             let prop_value = buf.split_to(prop_val_len);
             properties.insert(property, prop_value);
         }
